@@ -19,6 +19,11 @@
 //	chain del|p|new|restart                        the responder's own chain changes, then glb / hcb / bfi (chainops.go)
 //	sync ... extra=<kinds> main=e                  more connected peers, failing in various ways (multipeer.go)
 //	reset ... sq=1 rc=1                            requester's own blocks without prevotes / recent timestamps (scenario.go)
+//	hreq fast n=k tip=h | hreq block n=k tip=h fin=f
+//	                                               the request an honest synchroniser with k validators and own tip h
+//	                                               builds, handed to the responder's handler in-process (scale.go)
+//	sync ... fail=h | mute=h [pretemp=k]           peer answers getBlocksFromId from height h on with an error / not at
+//	                                               all; stale temp blocks before the synchronisation (failgeo.go)
 //	     [restart=1] [sy=1]                        (pseudo-property C04SYNC only, c04sync.go: requester restarted right
 //	                                               before; forced synchroniser run with the Executer's syncying flag set)
 //
@@ -196,6 +201,8 @@ func (prop) RunImpl(c corr.Case) (outs []string, fails []corr.Fail) {
 					ids = append(ids, id)
 				}
 				return fx.highestCommon(lsync.VerifC19EncodeHighestCommonBlockRequest(ids), ids, true)
+			case "hreq":
+				return fx.honestRequest(w[1:])
 			case "hcbnil":
 				return fx.highestCommon(nil, nil, true)
 			case "hcbraw":
@@ -324,6 +331,8 @@ func (prop) Classify(c corr.Case, out []string) string {
 			}
 		case "gap", "lasth", "cbs":
 			kinds["heights"] = true
+		case "hreq":
+			kinds[hreqClass(w, out[i])] = true
 		case "chain":
 			if len(w) == 2 {
 				chainSteps = append(chainSteps, w[1])
@@ -387,6 +396,7 @@ func (prop) Classify(c corr.Case, out []string) string {
 					cl += "+main-fails"
 				}
 			}
+			cl += scaleClass(prm) + failGeoClass(prm, b)
 			return cl
 		}
 	}
@@ -819,6 +829,8 @@ func genSync(rng *rand.Rand, tier string) []corr.Case {
 	l = append(l, genSyncGeometry(rng, tier)...)
 	l = append(l, genSyncMethod(rng, tier)...)
 	l = append(l, genSyncMulti(rng, tier)...)
+	l = append(l, genSyncScale(rng, tier)...)
+	l = append(l, genSyncFailGeo(rng, tier)...)
 	var cases []corr.Case
 	for _, sc := range l {
 		f, err := factsOf(sc.prm)
@@ -863,6 +875,7 @@ func (prop) Generate(rng *rand.Rand, tier string) []corr.Case {
 	cases = append(cases, genMethod(rng, tier)...)
 	cases = append(cases, genChainOps(rng, tier)...)
 	cases = append(cases, genHandlers(rng, tier)...)
+	cases = append(cases, genScale(rng, tier)...)
 	cases = append(cases, genHelpers(rng, tier)...)
 	cases = append(cases, genBest(rng, tier)...)
 	return cases
